@@ -267,6 +267,10 @@ def cmp_opreturn(r, m, case):
             d.append('opreturn lines differ at %s: impl=%s model=%s (%d vs %d lines)' % (k, str(lines[k])[:400] if k is not None and k < len(lines) else None,
                                                                                     str(m['opret'][k])[:400] if k is not None and k < len(m['opret']) else None, len(lines), len(m['opret'])))
         if r.last is not None and str(r.last) != m['status'][2]: d.append('last height impl=%s model=%s' % (r.last, m['status'][2]))
+    elif m['status'][0] == 'error' and lines != m['opret']:
+        # the lines of the blocks processed before the failing height are output of the run as well (they are printed as the blocks are processed)
+        d.append('opreturn lines before the failing height: impl has %d, model %d (first difference: %s)' % (len(lines), len(m['opret']),
+                 next(((a, b) for a, b in itertools.zip_longest(lines, m['opret']) if a != b), None)))
     return d
 
 def parse_stats(o):
